@@ -486,6 +486,10 @@ func parseResponse(xml []byte, maxSize int64) (*etree.Document, *etree.Element, 
 
 	err := maybeDeflate(xml, maxSize, func(xml []byte) error {
 		doc = etree.NewDocument()
+		// Keep repeated attributes as they appear instead of folding them into
+		// the position of the first one, so that decoding the parsed element
+		// sees the same attribute order as decoding the raw message does.
+		doc.ReadSettings.PreserveDuplicateAttrs = true
 		rawXML = xml
 		return doc.ReadFromBytes(xml)
 	})
